@@ -499,6 +499,20 @@ func plan() []item {
 			}
 		}
 	}
+	// two requests on one open stream, the credential invalidated in between (RPCs with driver.multi)
+	for _, ev := range []string{"valid", "deact", "reperm", "lowered", "close"} {
+		for _, mech := range []string{"sess", "tok", "tok2"} {
+			for _, k := range []string{"sys", "adm"} {
+				if k == "sys" && ev != "valid" && ev != "close" {
+					continue
+				}
+				if mech == "tok2" && (ev == "valid" || ev == "close") {
+					continue
+				}
+				out = append(out, item{"CfgAuth", "mid:" + ev, mech, k, "own"})
+			}
+		}
+	}
 	// maintenance mode, authentication off: no user can log in; UseDatabase hands out a token for an
 	// anonymous sysadmin
 	for _, s := range sels {
@@ -549,6 +563,8 @@ func (m *matrix) runAuthItems(items []item) {
 			c := e.obtain(it.Mech, it.Kind, it.Sel)
 			m.runContext(cfgAuth, c, "valid")
 			e.release(c)
+		case "mid:valid", "mid:deact", "mid:reperm", "mid:lowered", "mid:close":
+			m.runMidStream(it)
 		case "deact", "reperm", "lowered", "raised":
 			c := e.obtain(it.Mech, it.Kind, it.Sel)
 			m.invalidate(it.State, it.Kind, false)
@@ -556,6 +572,70 @@ func (m *matrix) runAuthItems(items []item) {
 			m.invalidate(it.State, it.Kind, true)
 			e.release(c)
 		}
+	}
+}
+
+// runMidStream: for every RPC that serves several requests on one stream, two requests on ONE
+// stream; between them the caller's credential is invalidated (or not: mid:valid).
+func (m *matrix) runMidStream(it item) {
+	e := m.e
+	event := strings.TrimPrefix(it.State, "mid:")
+	coqState := map[string]string{"valid": "SValid", "deact": "SDeact", "reperm": "SReperm", "lowered": "SLowered", "close": "SExpired"}[event]
+	for i := range m.ds {
+		d := &m.ds[i]
+		if d.multi == nil {
+			continue
+		}
+		c := e.obtain(it.Mech, it.Kind, it.Sel)
+		undo := func() {}
+		between := func() {
+			switch event {
+			case "deact", "reperm", "lowered":
+				m.invalidate(event, it.Kind, false)
+				undo = func() { m.invalidate(event, it.Kind, true) }
+			case "close": // the caller ends the credential itself
+				if c.hdr == "sess" {
+					e.closeSession(c.md)
+				} else {
+					e.logout(c.md)
+				}
+			}
+		}
+		cl := &call{e: e, md: c.md, user: kindUser[c.kind], tgt: selDB[it.Sel], victim: victimUser}
+		e1, e2 := d.multi(cl, between)
+		undo()
+		e.release(c)
+		c1, t1 := classifyErr(e1)
+		c2, t2 := classifyErr(e2)
+		through1, through2 := c1 != "refused", c2 != "refused"
+		why, tag := "", ""
+		if through2 && event != "valid" {
+			why = fmt.Sprintf("second request on an OPEN stream was served after the caller's credential was invalidated (%s): stream opened and request 1 answered [%s %s], then %s, then request 2 on the same stream answered [%s %s]",
+				event, c1, t1, map[string]string{"deact": "SetActiveUser(" + kindUser[it.Kind] + ",false) by the sysadmin",
+					"reperm": "ChangePermission(REVOKE) by the sysadmin", "lowered": "ChangePermission(GRANT of a lower permission) by the sysadmin",
+					"close": "CloseSession / Logout by the caller"}[event], c2, t2)
+			if c.hdr == "tok2" {
+				tag = "stale"
+			}
+		}
+		switch {
+		case tag == "stale":
+			m.stale++
+		case why != "":
+			key := d.svc + "/" + d.name + "|mid-stream " + event
+			if m.vioCount[key] == 0 {
+				m.vioFirst[key] = fmt.Sprintf("C18/violation: rpc=%s/%s user=%s(%s) credential=%s selected=%s: %s", d.svc, d.name, kindUser[it.Kind], it.Kind, c.hdr, c.effSel, why)
+				m.vioOrder = append(m.vioOrder, key)
+			}
+			m.vioCount[key]++
+		}
+		m.outcomes[fmt.Sprintf("stream-cells %s/%s", it.State, c2)]++
+		m.cells++
+		m.emit(fmt.Sprintf("CStream %q %q CfgAuth %s %s %s %s %s %s %s", d.svc, d.name, kindCoq[c.kind], hdrCoq[c.hdr], selCoq[c.effSel], selCoq[it.Sel], coqState, vk.Bool(through1), vk.Bool(through2)),
+			map[string]any{"kind": "stream", "cfg": "CfgAuth", "mech": it.Mech, "user_kind": it.Kind, "user": kindUser[it.Kind], "sel_requested": it.Sel,
+				"sel_effective": c.effSel, "credential": c.hdr, "state": it.State, "svc": d.svc, "rpc": d.name,
+				"request1": c1 + " " + t1, "request2": c2 + " " + t2, "violates": why != "", "why": why},
+			"CfgAuth/"+it.State, true)
 	}
 }
 
@@ -762,6 +842,13 @@ func (m *matrix) coverage() {
 			delete(have, svc+"/"+x.MethodName)
 		}
 		for _, x := range sd.Streams {
+			if x.ClientStreams && x.ServerStreams {
+				for _, d := range m.ds {
+					if d.svc == svc && d.name == x.StreamName && d.multi == nil {
+						m.other = append(m.other, fmt.Sprintf("C18/violation: rpc=%s/%s is a bidirectional stream but has no mid-stream driver in the access-control matrix", svc, x.StreamName))
+					}
+				}
+			}
 			if !have[svc+"/"+x.StreamName] {
 				m.other = append(m.other, fmt.Sprintf("C18/violation: rpc=%s/%s exists in the service descriptor but is not in the access-control matrix (new RPC: classify it and add a driver)", svc, x.StreamName))
 			}
@@ -904,6 +991,7 @@ func Replay(r *vk.Run, c map[string]any) error {
 	switch s("kind") {
 	case "cell":
 		m.only[s("svc")+"/"+s("rpc")] = true
+	case "stream":
 	case "ctx":
 		cells, _ := c["cells"].([]any)
 		for _, x := range cells {
